@@ -159,6 +159,10 @@ class Emitter:
         self.atom_done.add(g)
         self._declare(name)
         op = m.op
+        al = self.norm.aliases.get(g)
+        if al is not None:
+            other = self._atom(self.norm.gen_info[al[0]]["node"])
+            self.axioms.append("(assert (= %s (* %s)))" % (name, " ".join([other] * al[1])))
         if op == "root":
             num, den = self.norm.ratnorm(m.args[0])
             qq = m.args[1]
@@ -170,8 +174,15 @@ class Emitter:
                 )
             else:
                 self.axioms.append("(assert (and (> %s 0.0) (= (* %s) %s)))" % (name, pw, self.ref(num)))
-        elif op in ("exp", "cosh"):
-            self.axioms.append("(assert (> %s 0.0))" % name)
+        elif op == "cosh":
+            self.axioms.append("(assert (>= %s 1.0))" % name)
+        elif op == "exp":
+            a = self.ref(m.args[0])
+            # sound facts: positive, monotone w.r.t. 0, above its tangent at 0
+            self.axioms.append("(assert (and (> %s 0.0) (=> (<= %s 0.0) (<= %s 1.0)) (=> (>= %s 0.0) (>= %s 1.0)) (>= %s (+ 1.0 %s))))" % (name, a, name, a, name, name, a))
+        elif op == "log":
+            a = self.ref(m.args[0])
+            self.axioms.append("(assert (and (=> (>= %s 1.0) (>= %s 0.0)) (=> (<= %s 1.0) (<= %s 0.0)) (<= %s (- %s 1.0))))" % (a, name, a, name, name, a))
         elif op == "sin":
             c = self._atom(Node("cos", m.args))
             self.axioms.append("(assert (= (+ (* %s %s) (* %s %s)) 1.0))" % (name, name, c, c))
